@@ -63,7 +63,18 @@ EXPLANATION = (
     "capture; a helper method that stores to the slot ends that knowledge. A completion overtaken by _cancel_request "
     "therefore cannot clear the slot of the next fetcher (orphaning it, fetching its segment twice) nor raise / fail into "
     "a read that cancelled nothing. fetch_failed, _cancel_request, stop and _start_new_segment called synchronously are "
-    "not continuations and are decided by (2)/(8).  "
+    "not continuations and are decided by (2)/(8); "
+    "(14) _cancel_request tells the cancelling Cancel handle from the handles the other reads of the node have queued: its "
+    "comparison is `is`/`is not`, or the handle class (found through the constructor call of get_segment) compares by identity "
+    "(no __eq__/__ne__ other than `return self is other` in its package-local MRO, no dataclass/attrs decorator that generates "
+    "one), or - when handles compare by value - every method that hands the handle to the node's callback has by then stored, "
+    "into a compared field, a constant different from the value a fresh handle has there (constructor arguments are the same "
+    "for every handle of a node, so a handle that still looks fresh equals every queued one); "
+    "(15) re-entrancy from the consumer: for every call Segmentation makes on self._consumer after which (in the same method "
+    "or the same-class methods it calls) an attribute is still stored that decides which segment _fetch_next asks for or "
+    "whether the read is complete (_offset, _size), no public producer method (pause/resume/stopProducing) has a way to "
+    "get_segment made of direct self.m() calls only (eventually()/callbacks end the stack) whose tests are open given the "
+    "constants the calling method and the route have stored (a busy flag set around the call closes it).  "
     "Undecided: whether a foreign call made between the identity check and the store can re-enter the node and change the "
     "slot (log.msg, seg_ev.*, fetcher.stop/add_shares are assumed not to), continuations registered on the node's behalf "
     "outside DownloadNode (ShareFinder / Share call got_shares, no_more_shares: they address whichever fetcher is current), "
@@ -77,13 +88,19 @@ EXPLANATION = (
     "_alive gate, _hungry/_alive after completion or stopProducing, register/unregisterProducer), a "
     "_start_new_segment inlined into its callers, what happens to a read whose fetch fails (the _error errback, the "
     "errback of stopProducing, the failure branch of process_blocks._deliver beyond handing the failure on), the "
-    "integrity checks of _check_ciphertext_hash (other properties), download-status bookkeeping.")
+    "integrity checks of _check_ciphertext_hash (other properties), download-status bookkeeping; for (14): a handle class "
+    "with a base or decorator outside the package (ANALYSIS-ERROR), whether a compared field that is not a constant can tell "
+    "handles apart, value comparison of SegmentFetcher objects in the `!=` spelling of the ownership guard; for (15): "
+    "re-entrant calls made by anything but the consumer (log observers, the read's Deferred callbacks), a consumer that "
+    "re-enters through the download node rather than through its producer.")
 TECHNIQUE = ("static analysis: who-may-write/call sweeps, CFG gate rules on the cancel path (inter-procedural typestate with "
              "function summaries), in-class route gating of get_segment, normal forms of the clip and trim, Deferred callback-chain "
              "order and result flow, must-follow rules for start/deliver, integer-exact implication of segnum/count edge facts "
              "on the fetcher's bad-segment-number path, trapped failure classes of the retry errback, "
              "continuation discovery (Deferred registrations / eventually) with a CFG x (owned, empty) typestate of the fetcher slot "
-             "whose identity-test edges are judged against reaching-definition captures taken before the asynchronous gap")
+             "whose identity-test edges are judged against reaching-definition captures taken before the asynchronous gap, "
+             "equality semantics of the handle class (MRO / decorator reading) with a must-precede rule on the notifying call, "
+             "same-stack call routes with constant propagation of gate flags from the consumer call-out")
 
 NODE = "immutable.downloader.node:DownloadNode"
 SEG = "immutable.downloader.segmentation:Segmentation"
@@ -2491,6 +2508,376 @@ def run_literal(ctx, r):
             r.violation(rd, rd.loc(n.ast), "offset+size is computed although size may be None", w)
 
 
+# ------------------------------------------------------------------ how cancel handles compare (C04.14)
+HARMLESS_DECORATORS = {"implementer", "provider", "total_ordering", "final"}
+DATACLASS_DECORATORS = {"dataclass"}
+ATTRS_DECORATORS = {"s", "attrs", "attributes", "define", "mutable", "frozen"}
+FIELD_MAKERS = {"field", "ib", "attrib", "attr"}
+
+
+def _const_of(v):
+    """('const', value) / ('param', None) / ('other', None) of the initial value expression of a generated field."""
+    if v is None:
+        return ("param", None)
+    if isinstance(v, ast.Constant):
+        return ("const", v.value)
+    if isinstance(v, ast.Call) and call_tail(v) in FIELD_MAKERS:
+        kws = {k.arg: k.value for k in v.keywords if k.arg}
+        d = kws.get("default")
+        if d is None and v.args and call_tail(v) in ("ib", "attrib"):
+            d = v.args[0]
+        if d is None:
+            return ("other", None) if ("default_factory" in kws or "factory" in kws) else ("param", None)
+        return ("const", d.value) if isinstance(d, ast.Constant) else ("other", None)
+    return ("other", None)
+
+
+def _kw_false(call, *names):
+    if not isinstance(call, ast.Call):
+        return False
+    return any(k.arg in names and isinstance(k.value, ast.Constant) and k.value.value is False for k in call.keywords)
+
+
+def handle_equality(idx, ci):
+    """How two instances of the class ci compare under == / != / in:
+    ('identity', None, why) or ('fields', {field: ('const', v) | ('param', None) | ('other', None)}, why) - the
+    instance attributes that take part in the comparison, with the value a fresh instance has in them.
+    AnalysisError when the class gets its comparison from somewhere the rule cannot read."""
+    for c in ci.mro():
+        ext = [b for b in c.opaque_bases if b.split(".")[-1] != "object"]
+        if ext:
+            raise AnalysisError("%s derives from %s, which is outside the package: the rule cannot tell whether two handles "
+                                "compare by identity" % (c.name, ", ".join(ext)))
+        for dec in c.node.decorator_list:
+            f = dec.func if isinstance(dec, ast.Call) else dec
+            tail = (attr_path(f) or "").split(".")[-1]
+            if tail in HARMLESS_DECORATORS:
+                continue
+            gen = tail in DATACLASS_DECORATORS or tail in ATTRS_DECORATORS
+            if not gen:
+                raise AnalysisError("class decorator %s of %s: the rule cannot tell whether it gives the handles a value "
+                                    "comparison" % (ast.unparse(dec), c.name))
+            if "__eq__" in c.methods:
+                break           # an explicit __eq__ wins over the generated one
+            if _kw_false(dec, "eq", "cmp"):
+                continue
+            fields = {}
+            for s in c.node.body:
+                if isinstance(s, ast.AnnAssign) and isinstance(s.target, ast.Name):
+                    if "ClassVar" in ast.unparse(s.annotation).replace("typing.", "").split("[")[0]:
+                        continue
+                    if _kw_false(s.value, "compare", "eq", "cmp"):
+                        continue
+                    fields[s.target.id] = _const_of(s.value)
+                elif isinstance(s, ast.Assign) and len(s.targets) == 1 and isinstance(s.targets[0], ast.Name) \
+                        and isinstance(s.value, ast.Call) and call_tail(s.value) in FIELD_MAKERS and tail in ATTRS_DECORATORS:
+                    if not _kw_false(s.value, "compare", "eq", "cmp"):
+                        fields[s.targets[0].id] = _const_of(s.value)
+            return ("fields", fields, "@%s generates %s.__eq__ over (%s)" % (ast.unparse(f), c.name, ", ".join(fields)))
+        for name in ("__eq__", "__ne__"):
+            m = c.methods.get(name)
+            if m is None:
+                continue
+            ps = [a.arg for a in m.node.args.args]
+            ret = Ownership.single_return(m)
+            if len(ps) >= 2 and isinstance(ret, ast.Compare) and len(ret.ops) == 1 and isinstance(ret.ops[0], (ast.Is, ast.IsNot)) \
+                    and {nf(ret.left), nf(ret.comparators[0])} == {ps[0], ps[1]}:
+                continue        # identity, spelled out
+            init = ci.lookup("__init__")
+            inits = {}
+            if init is not None:
+                ip = set(first_positional_params(init))
+                for p, (_n, v) in Sym(idx, init, expand_attrs=False).attr_stores().items():
+                    if p.count(".") == 1:
+                        inits[p.split(".")[1]] = ("param", None) if (isinstance(v, ast.Name) and v.id in ip) else _const_of(v) \
+                            if isinstance(v, ast.Constant) else ("other", None)
+            used = {x.attr for x in func_own_nodes(m, into_lambda=True)
+                    if isinstance(x, ast.Attribute) and isinstance(x.value, ast.Name) and x.value.id == ps[0]}
+            whole = {"__dict__"} & used or any(isinstance(x, ast.Call) and call_tail(x) == "vars" for x in func_own_nodes(m))
+            fields = dict(inits) if whole else {a: inits.get(a, ("other", None)) for a in used if a in inits}
+            if not fields:
+                raise AnalysisError("%s.%s: the rule cannot read which attributes of a handle it compares" % (c.name, name))
+            return ("fields", fields, "%s.%s compares (%s)" % (c.name, name, ", ".join(sorted(fields))))
+    return ("identity", None, "%s inherits object.__eq__" % ci.name)
+
+
+def run_handle_identity(ctx, r):
+    """_cancel_request finds the request of the read that cancels by its Cancel handle.  The handles of the other reads
+    that wait on the same node must not be mistaken for it (C04.14)."""
+    idx = ctx.idx
+    gs = idx.func(NODE + ".get_segment")
+    gss = Sym(idx, gs)
+    ap = the_call(gs, "append", lambda c: attr_path(c.func.value) == "self._segment_requests")
+    tup = ap.args[0] if ap.args else None
+    if not isinstance(tup, ast.Tuple):
+        raise AnchorVanished("get_segment: the queued request is no longer a tuple")
+    made = [gss.expand(node_of(gs, ap), e) for e in tup.elts]
+    hcalls = [v for v in made if isinstance(v, ast.Call) and any(nf(a) == "self._cancel_request" for a in v.args)]
+    if len(hcalls) != 1:
+        raise AnchorVanished("get_segment: expected one handle built around self._cancel_request in the queued request")
+    hc = idx.resolve_expr_to_class(gs.module, hcalls[0].func)
+    if hc is None:
+        raise AnchorVanished("get_segment: the cancel handle %s is not an instance of a class of the package" % nf(hcalls[0]))
+    cr = idx.func(NODE + "._cancel_request")
+    cp = first_positional_params(cr)
+    if not cp:
+        raise AnchorVanished("_cancel_request takes no handle")
+    # -- the comparisons of _cancel_request that look for the handle
+    by_value, by_identity = [], []
+    for x in func_own_nodes(cr, into_lambda=True):
+        if isinstance(x, ast.Compare) and len(x.ops) == 1 and any(isinstance(s, ast.Name) and s.id == cp[0]
+                                                                   for s in [x.left] + list(x.comparators)):
+            (by_identity if isinstance(x.ops[0], (ast.Is, ast.IsNot)) else by_value).append(x)
+    if not by_value and not by_identity:
+        raise AnchorVanished("_cancel_request no longer compares the queued handles with the cancelling one")
+    for x in by_value + by_identity:
+        r.site(cr, x, "the cancelling handle is told apart from the handles of the other reads")
+    if not by_value:
+        return
+    kind, fields, why = handle_equality(idx, hc)
+    r.count(len(hc.mro()))
+    if kind == "identity":
+        return
+    # -- value comparison: a handle that calls the node must by then differ from a fresh handle of another read in a
+    #    compared field (the constructor arguments are the same for every handle of the node, see C04.1)
+    consts = {a: v for a, (k, v) in fields.items() if k == "const"}
+    cb_fields = {a for a, (k, _v) in fields.items() if k == "param"} | {
+        p.split(".")[1] for m in all_funcs_of(hc) if m.name == "__init__" for p in node_stores_all(m) if p.count(".") == 1}
+    notes = []
+    for m in all_funcs_of(hc):
+        if not m.node.args.args or m.name == "__init__" or m.parent is not None:
+            continue
+        me = m.node.args.args[0].arg
+        for c in calls_in_func(m):
+            if isinstance(c.func, ast.Attribute) and isinstance(c.func.value, ast.Name) and c.func.value.id == me \
+                    and c.func.attr in cb_fields and hc.lookup(c.func.attr) is None and any(nf(a) == me for a in c.args):
+                notes.append((m, me, c))
+    if not notes:
+        raise AnchorVanished("%s: no method hands the handle to the node's callback" % hc.name)
+    for (m, me, c) in notes:
+        cn = node_of(m, c)
+
+        def differs(q, _me=me):
+            for a, v0 in consts.items():
+                p = "%s.%s" % (_me, a)
+                if p in node_stores(q):
+                    v = assign_value(q, p)
+                    if isinstance(v, ast.Constant) and v.value != v0:
+                        return True
+            return False
+
+        def restored(q, _me=me):
+            return any(("%s.%s" % (_me, a)) in node_stores(q) for a in consts) and not differs(q)
+        for (n, w) in find_path_avoiding(m.cfg(), lambda q, _c=cn: q is _c, gate_node=differs, kill=restored, skip_exc_edges=True):
+            r.violation(cr, cr.loc(by_value[0]), "_cancel_request picks the request to drop with `%s`, but %s handles compare by "
+                        "value (%s) and %s calls the node (%s) while the handle still looks like a fresh one: every handle "
+                        "the other reads of this node have queued compares equal to it, so stopping one read drops the segment "
+                        "requests of all the others and they never complete (path in %s: %s).  Compare with `is` / `is not`, "
+                        "or keep identity comparison on the handle class" % (
+                            src(cr, by_value[0]), hc.name, why, short(m), src(m, c), short(m), w.brief()), w)
+
+
+def _reach_after(cfg, start):
+    """Ids of the CFG nodes that can run after `start` (non-exceptional edges)."""
+    seen, todo = set(), [start.id]
+    while todo:
+        x = todo.pop()
+        for (d, lab) in cfg.succ[x]:
+            if lab != "exc" and d not in seen:
+                seen.add(d)
+                todo.append(d)
+    return seen
+
+
+def node_stores_all(fn):
+    out = set()
+    for q in fn.cfg().nodes:
+        out |= {p for p in node_stores(q) if not p.endswith("[]")}
+    return out
+
+
+# ------------------------------------------------------------------ re-entrant calls from the consumer (C04.15)
+def run_reentrancy(ctx, r):
+    """The consumer may call pause/resume/stopProducing from inside a call the read makes on it (write).  While the
+    read's position is stale in such a call, no producer method reaches get_segment on the same stack (C04.15)."""
+    idx = ctx.idx
+    ci, funcs, F, gc, gn, reach = seg_fetcher(idx)
+    fs = Sym(idx, F)
+    by_qual = {g.qual: g for g in funcs}
+
+    def self_attrs(e):
+        return {attr_path(x) for x in ast.walk(e) if isinstance(x, ast.Attribute) and isinstance(x.value, ast.Name)
+                and x.value.id == "self" and isinstance(x.ctx, ast.Load)}
+    # -- the position of the read: what decides which segment _fetch_next asks for and whether the read is complete
+    state = set()
+    for a in list(gc.args) + [k.value for k in gc.keywords]:
+        state |= self_attrs(fs.expand(gn, a))
+    for q in F.cfg().nodes:
+        if q.kind == "test":
+            state |= self_attrs(fs.expand(q, q.ast))
+    written = set()
+    for g in funcs:
+        if g.name != "__init__":
+            written |= node_stores_all(g)
+    state &= written
+    if not state:
+        raise AnchorVanished("%s: the segment asked for does not depend on any attribute the read updates" % short(F))
+
+    def callee_closure(g):
+        out, todo = {}, [g]
+        while todo:
+            h_ = todo.pop()
+            if h_.qual in out:
+                continue
+            out[h_.qual] = h_
+            for c in calls_in_func(h_):
+                m = self_callee(h_, c)
+                if m is not None and m.qual in by_qual:
+                    todo.append(m)
+        return list(out.values())
+
+    def stores_in(g, attrs):
+        return any(attrs & node_stores_all(h_) for h_ in callee_closure(g))
+
+    def node_may_store(g, q, attrs):
+        if q.kind in ("entry", "exit", "raise"):
+            return False
+        if attrs & set(node_stores(q)):
+            return True
+        return any(self_callee(g, c) is not None and self_callee(g, c).qual in by_qual and stores_in(self_callee(g, c), attrs)
+                   for c in node_calls(q))
+
+    # -- the calls the read makes on its consumer
+    outs = []
+    for g in funcs:
+        for c in calls_in_func(g):
+            if isinstance(c.func, ast.Attribute) and nf(c.func.value) == "self._consumer":
+                outs.append((g, c, node_of(g, c)))
+    if not any(call_tail(c) == "write" for (_g, c, _n) in outs):
+        raise AnchorVanished("Segmentation no longer writes to its consumer")
+    entries = [g for g in funcs if g.parent is None and not g.name.startswith("_") and g.name != "start"]
+    rd = idx.func(NODE + ".read")
+    start_name = the_call(rd, "start").func.attr
+    entries = [g for g in entries if g.name != start_name]
+    if not entries:
+        raise AnchorVanished("Segmentation has no producer method the consumer can call")
+    fnorms = {}
+
+    def fact(g, q, lab):
+        if g.qual not in fnorms:
+            fnorms[g.qual] = FlowNorm(g)
+        return fnorms[g.qual].edge_fact(q, lab)
+
+    def closed(f, marks):
+        """The edge fact f cannot hold while the attributes in marks have the constant values noted there."""
+        if not f:
+            return False
+        if f[0] in ("truth", "false") and f[1] in marks:
+            return bool(marks[f[1]]) != (f[0] == "truth")
+        if f[0] in ("is", "==", "is not", "!=") and f[2] is not None and "None" in (f[1], f[2]):
+            x = f[2] if f[1] == "None" else f[1]
+            if x in marks:
+                return (marks[x] is None) != (f[0] in ("is", "=="))
+        return False
+
+    def after_node(g, n, st):
+        """What is still known about constant-valued attributes once node n of g has run."""
+        if n.kind in ("entry", "exit", "raise"):
+            return st
+        known = dict(st)
+        for x in list(known):
+            if x in node_stores(n):
+                v = assign_value(n, x)
+                if isinstance(v, ast.Constant):
+                    known[x] = v.value
+                else:
+                    del known[x]
+            elif node_may_store(g, n, {x}):
+                del known[x]
+        for x in node_stores(n):
+            v = assign_value(n, x) if x.startswith("self.") and x.count(".") == 1 else None
+            if isinstance(v, ast.Constant):
+                known[x] = v.value
+        return frozenset(known.items())
+
+    memo = {}
+
+    def route(g, marks, stack):
+        """(names of the methods on the way, Witness in g) of a way from the entry of g to get_segment that stays on
+        the caller's stack (direct self.m() calls only) and is open when the attributes in marks (a frozenset of
+        (attribute, constant)) have those values on entry; None when there is none."""
+        key = (g.qual, marks)
+        if key in memo:
+            return memo[key]
+        memo[key] = None
+        cfg = g.cfg()
+
+        def transfer(n, lab, nxt, st):
+            if lab == "exc":
+                return None
+            if n.kind == "test" and closed(fact(g, n, lab), dict(st)):
+                return None
+            return after_node(g, n, st)
+        visited, parent = explore(cfg, marks, transfer)
+        r.count(len(visited))
+        for (nid, st) in sorted(visited, key=lambda t: (t[0], sorted(map(repr, t[1])))):
+            q = cfg.nodes[nid]
+            if q.kind in ("entry", "exit", "raise"):
+                continue
+            if g is F and q is gn:
+                memo[key] = (["get_segment"], witness(cfg, parent, (nid, st)))
+                return memo[key]
+            for c in node_calls(q):
+                m = self_callee(g, c)
+                if m is not None and m.qual in by_qual and m.qual not in stack:
+                    got = route(m, st, stack + (m.qual,))
+                    if got is not None:
+                        memo[key] = ([m.name] + got[0], witness(cfg, parent, (nid, st)))
+                        return memo[key]
+        return None
+
+    for (g, c, cn) in outs:
+        cfg = g.cfg()
+        r.site(g, c, "the consumer is called with the read's position up to date, or cannot re-enter the fetch on this stack")
+        after = _reach_after(cfg, cn)
+        late = [cfg.nodes[i] for i in sorted(after) if node_may_store(g, cfg.nodes[i], state)]
+        if not late:
+            continue
+        # what a re-entrant call can rely on: attributes g has set to a constant by the time it calls the consumer
+        marks = {}
+        cands = {p for q in cfg.nodes for p in node_stores(q) if p.startswith("self.") and p.count(".") == 1
+                 and isinstance(assign_value(q, p), ast.Constant)}
+        for x in sorted(cands):
+            def transfer(n, lab, nxt, st, _x=x):
+                if lab == "exc":
+                    return None
+                if n.kind in ("entry", "exit", "raise") or n is cn:
+                    return st
+                if _x in node_stores(n):
+                    v = assign_value(n, _x)
+                    return ("c", repr(v.value)) if isinstance(v, ast.Constant) else ("?",)
+                if node_may_store(g, n, {_x}):
+                    return ("?",)
+                return st
+            visited, _parent = explore(cfg, ("?",), transfer)
+            vals = {st for (nid, st) in visited if nid == cn.id}
+            if len(vals) == 1 and next(iter(vals))[0] == "c":
+                marks[x] = ast.literal_eval(next(iter(vals))[1])
+        stale = sorted({p for q in late for p in (state & set(node_stores(q)))}) or sorted(state)
+        for e in entries:
+            got = route(e, frozenset(marks.items()), (e.qual,))
+            if got is None:
+                continue
+            chain, w = [e.name] + got[0], got[1]
+            r.violation(g, g.loc(c), "%s calls %s before it has brought %s up to date (`%s` comes after the call), and %s() reaches "
+                        "get_segment on the caller's stack (%s): a consumer that calls %s() from inside %s() makes the read ask "
+                        "for a segment from its old position - the segment it was just given - and the read fails or delivers "
+                        "the wrong bytes.  Advance the position before calling the consumer, or let %s() only schedule the fetch "
+                        "(eventually)" % (short(g), src(g, c.func), " / ".join(stale), src(g, late[0].ast), e.name,
+                                          " -> ".join(chain), e.name, call_tail(c), e.name), w)
+            break
+
+
 def run(ctx: Context):
     with ctx.rule("C04.1", "R4", "per-read isolation: fresh Segmentation / DecryptingConsumer / Deferred / Cancel per call; "
                   "per-read classes store only to self.* and touch the node only through get_segment", expected=5) as r:
@@ -2538,3 +2925,11 @@ def run(ctx: Context):
                   "before the gap (or, for a store, saw it empty): a completion that was overtaken by a cancel leaves the "
                   "other reads' fetcher alone", expected=1) as r:
         run_ownership(ctx, r)
+    with ctx.rule("C04.14", "R3/R4", "_cancel_request tells the cancelling Cancel handle from the handles of the other reads: it "
+                  "compares by identity (`is`, or a handle class without value comparison), or a handle that compares by value "
+                  "has made itself differ from a fresh handle before it calls the node", expected=1) as r:
+        run_handle_identity(ctx, r)
+    with ctx.rule("C04.15", "R1/E3", "re-entrancy: whenever Segmentation calls its consumer (write) with the read's position "
+                  "(_offset/_size) not yet advanced, no producer method the consumer may call from inside that call "
+                  "(resumeProducing, ..) reaches get_segment on the same stack", expected=1) as r:
+        run_reentrancy(ctx, r)
